@@ -27,6 +27,13 @@ def load_contracts():
 
 def fingerprint(F, body, site):
     """line-number free description of a site: kind + structural expressions of the asserted operands"""
+    from . import dataflow as _df
+    prev = _df.NORM_UNSIGNED; _df.NORM_UNSIGNED = True
+    try: return _fingerprint(F, body, site)
+    finally: _df.NORM_UNSIGNED = prev
+
+
+def _fingerprint(F, body, site):
     import hashlib
     t = body['blocks'][site.bb]['term']
     names = body.get('debug', {})
